@@ -33,6 +33,18 @@ func Rig() *kernel.Rig {
 	r.RunTimeout = 300 * time.Second
 	// the fast-sync runs add about a fifth to the thorough tier's CPU time
 	r.ThoroughBudget = 20 * time.Minute
+	// The reactor's pool routine runs on a goroutine of its own with no recover:
+	// a panic there (or in any goroutine of the code under test) kills the
+	// worker process. The two such defects found with this rig are looked for
+	// by survivable probes (fastsyncrig/probe.go); any other one is classified
+	// here from the dead worker's log.
+	r.OnCrash = func(log string) (string, string, string, bool) {
+		v, site := kernel.CrashSite(log, "github.com/lianxiangcloud/linkchain/")
+		if site == "" {
+			return "", "", "", false // not in the code under test: harness trouble
+		}
+		return "process-crash", "C03/process-crash/" + site, "an unrecovered panic outside every recover killed the node's process (in the fast-sync part: a peer's message, the reactor's pool routine): " + v, true
+	}
 	// VERIF_C03_PART=fastsync|votes forces one part (diagnostics, the part's own
 	// determinism runs); unset, the part is a function of the tape alone
 	force := os.Getenv("VERIF_C03_PART")
